@@ -101,7 +101,7 @@ UiCall ==
         /\ UNCHANGED vars /\ UNCHANGED <<hdr, pend, pscan, rend, cnt, expect, seen, mode, cstat>>
      \/ /\ Ev.api = "drop_nucleo" /\ ui.pc = "idle" /\ uicall' = "drop"
         /\ UNCHANGED vars /\ UNCHANGED <<hdr, pend, pscan, rend, cnt, expect, seen, mode, cstat>>
-     \/ /\ Ev.api \in {"dump", "injector", "clone_injector", "drop_injector"} /\ UNCHANGED vars /\ KeepCv
+     \/ /\ Ev.api \in {"dump", "injector", "clone_injector", "drop_injector", "update_config"} /\ UNCHANGED vars /\ KeepCv
   /\ Adv
 
 SnapshotAgrees ==
@@ -117,7 +117,7 @@ UiRet ==
      \/ /\ Ev.api = "dump" /\ SnapshotAgrees /\ cstat' = [cstat EXCEPT !.snapshots = @ + 1]
         /\ UNCHANGED <<hdr, pend, pscan, rend, cnt, expect, seen, uicall, mode>>
      \/ /\ Ev.api \in {"restart", "drop_nucleo"} /\ uicall' = "" /\ UNCHANGED <<hdr, pend, pscan, rend, cnt, expect, seen, mode, cstat>>
-     \/ /\ Ev.api \in {"reparse", "injector", "clone_injector", "drop_injector"} /\ KeepCv
+     \/ /\ Ev.api \in {"reparse", "injector", "clone_injector", "drop_injector", "update_config"} /\ KeepCv
   /\ UNCHANGED vars /\ Adv
 
 \* ------------------------------------------------------------------ UI thread: atomics and hooks
